@@ -39,6 +39,15 @@ def corr_slots(per_quick, per_thorough, tables=None, want_spec=True, family=None
                 vectors += chk.gen_vectors('slots', args + ['-tables', t, '-ops', ','.join(sorted(ops))])
         else:
             vectors = chk.gen_vectors('slots', args)
+        if broken:
+            # the same slots from states that carry a REFUSED maskable request (IFF1 clear): a state dimension no theorem of the slot
+            # layer quantifies over separately (Step = executeOne there), searched when a proof no longer checks
+            pargs = ['-seed', str(ctx.seed + 11), '-per', str(min(per, 12)), '-pend', '100']
+            if family:
+                for t, ops in sorted(family_slots(chk, fams).items()):
+                    vectors += chk.gen_vectors('slots', pargs + ['-tables', t, '-ops', ','.join(sorted(ops))])
+            else:
+                vectors += chk.gen_vectors('slots', pargs + (['-tables', ','.join(tables)] if tables else []))
         # targeted search first: the slots named by broken obligations, many states each
         for (t, op) in slots_from_broken(broken)[:24]:
             tv = chk.gen_vectors('slots', ['-seed', str(ctx.seed + 7), '-per', '200', '-tables', t, '-ops', op])
@@ -108,6 +117,9 @@ def corr_intr(n_quick, n_thorough):
     def run(ctx, chk, broken):
         n = n_thorough if ctx.tier == 'thorough' else n_quick
         vectors = chk.gen_vectors('intr', ['-seed', str(ctx.seed), '-n', str(n)])
+        # every slot once (thorough: 8 times) from a state in which a maskable request is pending and must be REFUSED (IFF1 clear): the
+        # instruction runs as if nothing were waiting and the request stays
+        vectors += chk.gen_vectors('slots', ['-seed', str(ctx.seed + 11), '-per', '8' if ctx.tier == 'thorough' else '1', '-pend', '100'])
         dis, stats, go = chk.correspond(ctx, vectors, want_spec=True, extra_streams=('kf',))
         kf_bad = {vid for (st, vid, v, g, o) in dis if st == 'kf'}
         out = []
@@ -196,14 +208,24 @@ def corr_zex(ctx, chk, broken):
     return outl, cov
 
 
-def memio_run(chk, ops):
+def memio_run(chk, ops, with_gen=False):
+    """the same operation lines on the real types (harness), on the hand-written model, and (with_gen) on the model whose store
+    operations are the methods translated from memio.go.  The third list is None when the translated module does not build."""
     import os
     from concurrent.futures import ThreadPoolExecutor
-    with ThreadPoolExecutor(max_workers=2) as ex:
+    gen_ok = False
+    if with_gen:
+        rc, _ = chk.sh(['lake', 'build', 'Z80.MemIOGen'], cwd=chk.LEAN, timeout=1800)
+        gen_ok = rc == 0
+    with ThreadPoolExecutor(max_workers=3) as ex:
         f1 = ex.submit(chk.sh, [os.path.join(chk.WORK, 'harness'), 'memio'], None, None, 1800, ops)
         f2 = ex.submit(chk.sh, ['lake', 'env', 'lean', '--run', 'DriverMemIO.lean'], chk.LEAN, None, 1800, ops)
+        f3 = ex.submit(chk.sh, ['lake', 'env', 'lean', '--run', 'DriverMemIOGen.lean'], chk.LEAN, None, 1800, ops) if gen_ok else None
         go = [l for l in f1.result()[1].splitlines() if l and not l.startswith('WARNING')]
         le = [l for l in f2.result()[1].splitlines() if l and not l.startswith('WARNING')]
+        ge = [l for l in f3.result()[1].splitlines() if l and not l.startswith('WARNING')] if f3 else None
+    if with_gen:
+        return go, le, ge
     return go, le
 
 
@@ -212,28 +234,40 @@ def corr_memio(ctx, chk, broken):
     n = 6000 if ctx.tier == 'thorough' else 400
     ops = chk.gen_vectors('memio', ['-seed', str(ctx.seed), '-n', str(n)])
     lines = [l for l in ops.splitlines() if l.strip()]
-    go, le = memio_run(chk, ops)
+    go, le, ge = memio_run(chk, ops, with_gen=True)
     out = []
     if len(go) != len(lines) or len(le) != len(lines):
         out.append({'stream': 'memio', 'id': 'length', 'vector': f'ops={len(lines)} real={len(go)} model={len(le)}',
                     'real': (go[-1] if go else None), 'other': (le[-1] if le else None)})
+    if ge is not None and len(ge) != len(lines):
+        out.append({'stream': 'memiogen', 'id': 'length', 'vector': f'ops={len(lines)} real={len(go)} translated={len(ge)}',
+                    'real': (go[-1] if go else None), 'other': (ge[-1] if ge else None)})
     start = 0
     kinds = {}
+    nondefault = 0
     for i, l in enumerate(lines[:min(len(go), len(le))]):
         if l == 'reset':
             start = i
         k = l.split()[0] + ':' + go[i].split()[0]
+        if l.split()[0] in ('get', 'in') and len(go[i]) == 2:
+            k = l.split()[0] + ':' + ('default' if go[i] in ('00', 'c7') else 'written-value')
+            nondefault += go[i] not in ('00', 'c7')
         kinds[k] = kinds.get(k, 0) + 1
         if go[i] != le[i]:
             seq = lines[start:i + 1]
             out.append({'stream': 'memio', 'id': f'seq@{start}+{i - start}', 'vector': '\n'.join(seq), 'real': go[i], 'other': le[i], 'kind': 'memio'})
-            if len(out) >= 3:
-                break
+        if ge is not None and i < len(ge) and go[i] != ge[i]:
+            seq = lines[start:i + 1]
+            out.append({'stream': 'memiogen', 'id': f'gseq@{start}+{i - start}', 'vector': '\n'.join(seq), 'real': go[i], 'other': ge[i], 'kind': 'memio'})
+        if len(out) >= 3:
+            break
     cov = {'evaluations': len(lines), 'distinct_nontrivial': len(kinds),
            'rule': 'one evaluation = one operation (new/alias/get/set/put/in/out/clone/clear/equal/dump) applied to the real DumbMemory/DumbIO/MapMemory values and to the model, '
                    'answers compared line by line; sequences of 20-80 operations over 2-6 variables (slice lengths 0..65536 incl. edges, nil maps, aliases, clones, blocks ending at the slice end, wrapping Puts); '
                    'distinct = distinct (operation, answer class) pairs hit',
-           'correspondence': {'sequences': n, 'operations': len(lines), 'distribution': dict(sorted(kinds.items()))}}
+           'correspondence': {'sequences': n, 'operations': len(lines), 'distribution': dict(sorted(kinds.items())),
+                              'reads_returning_a_written_value': nondefault,
+                              'translated_methods_stream': ('compared on every operation' if ge is not None else 'NOT AVAILABLE: Z80.MemIOGen does not build (translator refused memio.go, or the generated methods no longer fit)')}}
     return out, cov
 
 
@@ -395,12 +429,19 @@ def corr_inject(n_quick, n_thorough, maxk_quick=24):
     def run(ctx, chk, broken):
         n = n_thorough if ctx.tier == 'thorough' else n_quick
         maxk = 0 if ctx.tier == 'thorough' else maxk_quick
+        if broken:
+            # a proof no longer checks: search more programs, every injection point, and the named slots with a request waiting
+            n, maxk = max(n, 40), 0
         vectors = chk.gen_vectors('inject', ['-seed', str(ctx.seed), '-n', str(n), '-per', str(maxk)])
+        for (t, op) in slots_from_broken(broken)[:24]:
+            for pend in ('0', '100'):
+                tv = chk.gen_vectors('slots', ['-seed', str(ctx.seed + 7), '-per', '100', '-tables', t, '-ops', op, '-pend', pend])
+                vectors = re.sub(r'(?m)^(\w+-[0-9a-f]{2}-)', r'\1t', tv) + vectors
         dis, stats, go = chk.correspond(ctx, vectors, want_spec=True, extra_streams=('kf',))
         kf_bad = {vid for (st, vid, v, g, o) in dis if st == 'kf'}
         out = []
         for (st, vid, v, g, o) in dis:
-            im0 = '-im0' in vid
+            im0 = '-im0' in vid or (chk.slot_of(vid) is not None and is_im0_data(v))
             if st == 'kf' and not im0:
                 continue
             d = {'stream': st, 'id': vid, 'vector': v, 'real': g, 'other': o}
@@ -704,10 +745,13 @@ PROPS = {
         'explanation': 'kernel evaluation over the whole finite data: the 67+67 records reached through each image\'s own pointer table equal the Go table entries in order, byte for byte (mask, base, increment, shift, CRC, description), and equal the pinned canonical records',
     },
     'C15': {
-        'targets': ['Z80.Props.C15'],
-        'count': ['Z80/Props/C15.lean'],
+        'targets': ['Z80.Props.C15', 'Z80.Props.C15Gen'],
+        'audit_extra': ['C15Gen'],
+        'count': ['Z80/Props/C15.lean', 'Z80/Props/C15Gen.lean'],
         'correspond': corr_memio,
-        'assumptions': ['memio.go is modelled by hand (Z80.Spec.MemIO): Go slices/maps are reference objects on a heap, variables hold handles; tied to the code by the operation-sequence correspondence, and by C15_source_pinned: the gofmt-normalised text of every function of memio.go, extracted by go2lean on each run, is the text the model was written from (any edit breaks that obligation, harmless ones included)',
+        'assumptions': ['every method of memio.go is TRANSLATED on each run (tools/go2lean/memiotr.go -> Z80/Gen/MemIO.lean, Option monad, none = panic) over the prelude Z80/GoStore.lean (the reading of Go slice/map primitives: trusted, validated by the memiogen stream); Props/C15Gen.lean proves each translated method equal to the store function of the hand-written model for every input, Clone and Clear for every visiting order of range-over-map',
+                        'which variables share an object (Go slices/maps are reference objects: aliasing, Put returning its receiver, Clone allocating) is the hand-written heap model Z80.Spec.MemIO, tied to the code by the operation-sequence correspondence (real types vs model vs model-with-translated-methods)',
+                        'Go int is modelled unbounded (sums of a uint16 and a slice length cannot overflow 64 bits)',
                         'DumbMemory.Put outside the slice panics in Go (slice bounds) — outside the property\'s "block lying inside the slice"; the model records it as a panic that changes nothing',
                         'slices are created with cap = len (a Put may otherwise write into spare capacity)',
                         'nil MapMemory: reads give 0xC7, writes panic, Equal(nil,nil) is true — recorded in the model; the property speaks about initialised values'],
@@ -734,7 +778,8 @@ PROPS = {
     'C09': {
         'targets': ['Z80.Props.C09'],
         'count': ALL_OBL + ['Z80/Proofs/Block.lean', 'Z80/Proofs/RunLoop.lean', 'Z80/Props/C09.lean'],
-        'correspond': corr_stream([('block', 250, 4000, ['-per', '2']), ('slots', 6, 60, ['-tables', 'ed', '-ops', 'a0,a1,a2,a3,a8,a9,aa,ab,b0,b1,b2,b3,b8,b9,ba,bb'])], want_spec=True,
+        'correspond': corr_stream([('block', 250, 4000, ['-per', '2']), ('slots', 6, 60, ['-tables', 'ed', '-ops', 'a0,a1,a2,a3,a8,a9,aa,ab,b0,b1,b2,b3,b8,b9,ba,bb']),
+                                   ('slots', 6, 60, ['-tables', 'ed', '-ops', 'a0,a1,a2,a3,a8,a9,aa,ab,b0,b1,b2,b3,b8,b9,ba,bb', '-pend', '100'])], want_spec=True,
                                   rule='one vector = a block instruction run to completion by repeated CPU.Step on the real code (counts 1..600, byte boundaries 0x0100/0x0200/0x0201, B=0, two full-length runs of 65535/65536 Steps), '
                                        'HL/DE with overlap distances -3..+3, pointers covering the instruction itself and wrapping at 0xFFFF, planted match bytes for CPIR/CPDR, random memory and device; '
                                        'final registers, complete written memory, ordered bus/port log hash compared with the regenerated model and with the reference'),
